@@ -210,7 +210,7 @@ func runCheck(cfg *config, spec *engineSpec) int {
 		groups[f.key()] = append(groups[f.key()], f)
 	}
 	keys := sortedKeys(groups)
-	var unknown, knownHit []string
+	var unknown, knownHit, unconfirmed []string
 	violations := 0
 	var replayPaths []string
 	for gi, k := range keys {
@@ -225,13 +225,20 @@ func runCheck(cfg *config, spec *engineSpec) int {
 			}
 			return fs[i].Run < fs[j].Run
 		})
-		f := fs[0]
-		rc.useAlt = f.Alt
-		rf := rc.minimise(f, gi < 6)
-		rc.useAlt = false
+		// The representative is the smallest failure of the class; if the code under test is
+		// schedule-dependent a particular failure may not show again on replay, so the next
+		// ones of the class are tried before the class is declared unconfirmed.
+		var f *failure
+		var rf *replayFile
+		for try := 0; try < len(fs) && try < 8 && rf == nil; try++ {
+			f = fs[try]
+			rc.useAlt = f.Alt
+			rf = rc.minimise(f, gi < 6)
+			rc.useAlt = false
+		}
 		if rf == nil {
-			// did not reproduce in a fresh process: the simulator is not deterministic here
-			die2("failure of run %d (seed %d), %s, did not reproduce on replay", f.Run, f.Seed, k)
+			unconfirmed = append(unconfirmed, fmt.Sprintf("%s (%d runs failed in the search, none of the %d tried reproduced on replay)", k, len(fs), min(len(fs), 8)))
+			continue
 		}
 		name := fmt.Sprintf("%s-%s-s%d-r%d.json", spec.property, sanitize(rf.Violation.Invariant+"-"+rf.Violation.Signature), f.Seed, f.Run)
 		path := filepath.Join(cfg.outDir, "replays", name)
@@ -279,6 +286,11 @@ func runCheck(cfg *config, spec *engineSpec) int {
 	}
 	if len(unknown) > 0 {
 		return 1
+	}
+	if len(unconfirmed) > 0 {
+		// failures seen in the search that no replay confirmed: the simulator is not
+		// deterministic on this tree; it will not vouch for it
+		die2("failures that did not reproduce on replay: %v", unconfirmed)
 	}
 	if !sc.OK {
 		die2("determinism self-check failed and no violation was found: %s", sc.Detail)
